@@ -13,7 +13,7 @@ import (
 
 func init() { Registry["C11"] = runC11 }
 
-const explanationC11 = "Decides structural necessary conditions of C11 on eval.RunDSL and its helpers: (R11.1) phase barrier — in RunDSL's CFG no call of a later phase (prepare/validate/finalize, by resolved callee or by the function value passed to WalkSets) can reach a call of an earlier phase, each later phase calls both the root-level set and WalkSets, and ranges over the whole root list obtained from Context.Roots; (R11.2) the Context.Errors gates sit between phases (everything that reaches a gate is of a strictly earlier phase than everything its nil branch reaches), execute→prepare and validate→finalize are separated by such a gate, and the error of Roots() is returned before any phase call; (R11.3) the four set runners have no break/return inside their range loops, validateSet records after its loop, Context.Record appends; (R11.4) each runner asserts its own interface and calls that interface's method; (R11.5) the execute loop re-reads Context.Roots() so that roots registered during execution are picked up and the later phases range over that re-read list; (R11.6) the dependency callbacks passed to sortDependencies depend on their argument; (R11.7) sortDependenciesR appends a root after recursing into its dependencies. NOT decided: that Roots() returns a topological order and detects every cycle for every graph (a semantic claim about an algorithm over all graphs), termination, and what DSL functions do."
+const explanationC11 = "Decides structural necessary conditions of C11 on eval.RunDSL and its helpers: (R11.1) phase barrier — in RunDSL's CFG no call of a later phase (prepare/validate/finalize, by resolved callee or by the function value passed to WalkSets) can reach a call of an earlier phase, each later phase calls both the root-level set and WalkSets, and ranges over the whole root list obtained from Context.Roots; (R11.2) the Context.Errors gates sit between phases (everything that reaches a gate is of a strictly earlier phase than everything its nil branch reaches), execute→prepare and validate→finalize are separated by such a gate, and the error of Roots() is returned before any phase call; (R11.3) the four set runners have no break/return inside their range loops, validateSet records after its loop, Context.Record appends; (R11.4) each runner asserts its own interface and calls that interface's method; (R11.5) the execute loop re-reads Context.Roots() so that roots registered during execution are picked up and the later phases range over that re-read list; (R11.6) the dependency callbacks passed to sortDependencies depend on their argument; (R11.7) sortDependenciesR appends a root after recursing into its dependencies; (R11.8) every dependency flattening gets a visited set of its own (none shared across the loop over the roots); (R11.9) the cycle check skips only the pair of a root with itself. NOT decided: that Roots() returns a topological order and detects every cycle for every graph (a semantic claim about an algorithm over all graphs), termination, and what DSL functions do."
 
 var phaseRunners = map[string]int{"runSet": 0, "prepareSet": 1, "validateSet": 2, "finalizeSet": 3}
 var phaseNames = []string{"execute", "prepare", "validate", "finalize"}
@@ -44,6 +44,7 @@ func runC11(c *an.Ctx) string {
 	r11Runners(c)
 	r11Record(c)
 	r11Roots(c)
+	r11RootsLoops(c)
 	return explanationC11
 }
 
@@ -563,4 +564,162 @@ func r11Roots(c *an.Ctx) {
 			c.Okf("R11.7", g.Name, "the root is appended only after the recursion over its dependencies (dependencies first)")
 		}
 	}
+}
+
+// r11RootsLoops (R11.8, R11.9): (R11.8) every dependency flattening starts from
+// its own visited set - a map handed to sortDependencies/sortDependenciesR from
+// inside a loop is created inside that loop's body (or by the callee); a set
+// shared by the iterations makes the order, and what each root's list contains,
+// depend on which roots were flattened before. (R11.9) the cycle check examines
+// every ordered pair of distinct roots: in the loop that returns the
+// dependency-cycle error the only `continue` skips the pair of a root with
+// itself (an equality of two EvalName() calls) and there is no break out of the
+// pair loops.
+func r11RootsLoops(c *an.Ctx) {
+	f := c.MustFunc("R11.8", "eval", "DSLContext.Roots")
+	if f == nil {
+		return
+	}
+	info := f.Pkg.TypesInfo
+	parent := an.ParentMap(f.Decl.Body)
+	enclosingLoop := func(n ast.Node) ast.Node {
+		for p := parent[n]; p != nil; p = parent[p] {
+			switch p.(type) {
+			case *ast.ForStmt, *ast.RangeStmt:
+				return p
+			case *ast.FuncLit:
+				return nil
+			}
+		}
+		return nil
+	}
+	n := 0
+	for _, fn := range []*an.Func{f, c.Func("eval", "sortDependencies")} {
+		if fn == nil {
+			continue
+		}
+		finfo := fn.Pkg.TypesInfo
+		par := parent
+		if fn != f {
+			par = an.ParentMap(fn.Decl.Body)
+		}
+		_ = par
+		ast.Inspect(fn.Decl.Body, func(nd ast.Node) bool {
+			call, ok := nd.(*ast.CallExpr)
+			if !ok {
+				return true
+			}
+			name := an.CalleeName(finfo, call)
+			if name != an.P("eval")+".sortDependencies" && name != an.P("eval")+".sortDependenciesR" {
+				return true
+			}
+			for _, a := range call.Args {
+				t := finfo.TypeOf(a)
+				if t == nil {
+					continue
+				}
+				if _, isMap := t.Underlying().(*types.Map); !isMap {
+					continue
+				}
+				n++
+				construct := fmt.Sprintf("%s#visited(%s)", fn.Name, an.Src(c.Fset, a))
+				fresh := false
+				switch x := an.Unparen(a).(type) {
+				case *ast.CallExpr, *ast.CompositeLit:
+					fresh = true
+				case *ast.Ident:
+					o := finfo.Uses[x]
+					var loop ast.Node
+					if fn == f {
+						loop = enclosingLoop(call)
+					}
+					if loop == nil {
+						fresh = fn != f || o != nil // not in a loop: one flattening per call of the function
+						if fn == f {
+							fresh = true
+						}
+					} else if o != nil && o.Pos() >= loop.Pos() && o.Pos() <= loop.End() {
+						fresh = true // declared inside the loop
+					}
+				}
+				c.Check(fresh, "R11.8", construct, call.Pos(), "the flattening gets a visited set of its own", "the visited set passed to the dependency flattening is created outside the loop over the roots: roots visited while flattening one root are skipped when flattening the next, whose dependency list is then truncated and ordered before its dependencies")
+			}
+			return true
+		})
+	}
+	_ = info
+	// R11.9
+	var cycleLoop *ast.RangeStmt
+	ast.Inspect(f.Decl.Body, func(nd ast.Node) bool {
+		rs, ok := nd.(*ast.RangeStmt)
+		if !ok || cycleLoop != nil {
+			return true
+		}
+		hasErr := false
+		ast.Inspect(rs.Body, func(m ast.Node) bool {
+			if ret, ok := m.(*ast.ReturnStmt); ok && len(ret.Results) == 2 {
+				if id, ok := ret.Results[0].(*ast.Ident); ok && id.Name == "nil" {
+					hasErr = true
+				}
+			}
+			return true
+		})
+		if hasErr {
+			cycleLoop = rs
+			return false
+		}
+		return true
+	})
+	if cycleLoop == nil {
+		c.Add(an.Obligation{Rule: "R11.9", Construct: f.Name + "#cycle-check", Status: an.LOST, Detail: "no loop returning the dependency-cycle error found"})
+		return
+	}
+	var probs []string
+	ast.Inspect(cycleLoop.Body, func(m ast.Node) bool {
+		br, ok := m.(*ast.BranchStmt)
+		if !ok {
+			return true
+		}
+		is, _ := parent[parent[br]].(*ast.IfStmt)
+		switch br.Tok {
+		case token.CONTINUE:
+			okCond := false
+			if is != nil {
+				if cmp, ok := an.Unparen(is.Cond).(*ast.BinaryExpr); ok && cmp.Op == token.EQL {
+					isName := func(e ast.Expr) bool {
+						call, ok := an.Unparen(e).(*ast.CallExpr)
+						if !ok {
+							return false
+						}
+						se, ok := call.Fun.(*ast.SelectorExpr)
+						return ok && se.Sel.Name == "EvalName"
+					}
+					okCond = isName(cmp.X) && isName(cmp.Y)
+				}
+			}
+			if !okCond {
+				cond := "unconditionally"
+				if is != nil {
+					cond = "if " + an.Src(c.Fset, is.Cond)
+				}
+				probs = append(probs, "the cycle check skips a pair of roots "+cond+": pairs it skips are never tested for mutual dependency, and a cycle among them is accepted")
+			}
+		case token.BREAK:
+			// a break is only the end of a membership search: it follows the assignment of the search flag
+			blk, _ := parent[br].(*ast.BlockStmt)
+			okBreak := false
+			if blk != nil && len(blk.List) == 2 {
+				if as, ok := blk.List[0].(*ast.AssignStmt); ok && len(as.Rhs) == 1 {
+					if v, isConst := an.ConstBool(f.Pkg.TypesInfo, as.Rhs[0]); isConst && v {
+						okBreak = true
+					}
+				}
+			}
+			if !okBreak {
+				probs = append(probs, "the cycle check leaves a pair loop early (break not ending a membership search)")
+			}
+		}
+		return true
+	})
+	report(c, "R11.9", f.Name+"#cycle-check", f, probs, "every ordered pair of distinct roots is tested for mutual dependency: the only skip is the pair of a root with itself")
 }
